@@ -66,6 +66,14 @@ def build(cfg):
         # an extra quote inside the latency window after bar 1 (applied before execution 2)
         evs.append(EventNBBO(G[1] + timedelta(seconds=10), first, 90.0, 93.0))
         evs.append(EventNBBO(G[2] + timedelta(seconds=31), first, 80.0, 81.0))
+        # ... and for the margined contract, so that variation margin is booked between the previous valuation and the snapshot
+        second = cs[1]
+        if hasattr(second, "lead_contract"):
+            second = second.lead_contract(G[2])
+            evs.append(EventNBBO(G[2] + timedelta(seconds=20), second, 3100.0, 3103.0))
+        else:
+            base_px = [e for e in evs if isinstance(e, EventNBBO) and e.contract is second and e.time == G[2]][0]
+            evs.append(EventNBBO(G[2] + timedelta(seconds=20), second, base_px.bid_price * 1.0625, base_px.ask_price * 1.0625))
     if rates:
         for i, g in enumerate(G):
             evs.append(EventNBBO(g, RATE, RATES[i % len(RATES)], RATES[i % len(RATES)]))
@@ -172,6 +180,17 @@ def run_sequence(env, sink, cash, cfg, seq):
                 if not close(e.context_pre.margins.get(c, 0.0), c.margin_requirement * c.multiplier * abs(q) * p0):
                     msgs.append("entry %d: recorded PRE-trade margin of %s is %r, ledger %r"
                                 % (k, c, e.context_pre.margins.get(c, 0.0), c.margin_requirement * c.multiplier * abs(q) * p0))
+        # each snapshot must be internally consistent: recorded cash + margins + fully-paid values = recorded NLV
+        for tag, ctx in (("PRE", e.context_pre), ("POST", e.context_post)):
+            cashv = sum(float(v) for c, v in ctx.nr_contracts.items() if isinstance(c, Cash))
+            tot = cashv + sum(float(v) for v in ctx.margins.values())
+            for c, v in ctx.nr_contracts.items():
+                if not isinstance(c, Cash) and v != 0 and c.cash_requirement == 1.0:
+                    pr = liq_at(env, c, v, e.time)
+                    tot += float(v) * pr * c.multiplier
+            if not close(tot, ctx.nlv):
+                msgs.append("entry %d: %s-trade snapshot is inconsistent: cash %r + margins + fully-paid values = %r but NLV %r"
+                            % (k, tag, cashv, tot, float(ctx.nlv)))
         pre_held = {c for c, v in e.context_pre.nr_contracts.items() if v != 0 and not isinstance(c, Cash)}
         ghost_pre = [c for c in pre_held if abs(led.pos.get(c, [0.0])[0]) < 1e-12]
         if ghost_pre:
